@@ -333,6 +333,18 @@ void root() {
     else if (late_calls != 1) violate(late_calls == 0 ? "tls_dtor_missing" : "tls_dtor_unexpected", "destroy notifier", "a value left at thread exit under a key that had been released meanwhile: notifier ran %d time(s), expected once", late_calls);
     HX_API_V("p_uthread_unref", 20, false, p_uthread_unref(th));
   }
+  if (gen(6) == 0) {
+    // the library is shut down by a thread that has a handle of its own and then ends as a thread (its TLS destructors run):
+    // whatever the shut-down released must not be released again by that exit
+    Task *t = spawn(0, []() {
+      PUThread *me = HX_API("p_uthread_current", 0, false, p_uthread_current());
+      if (!me) violate("current_null", "p_uthread_current", "p_uthread_current returned NULL in a foreign thread");
+      lib_end();
+      probe("thread.shutdown_by_exiting_thread");
+    });
+    t->is_thread = true;
+    wait_all_others();
+  } else
   lib_end();
   delete S; S = nullptr;
 }
